@@ -1629,6 +1629,9 @@ def ash_spec() -> ModSpec:
     )
 
 
+MODULES = {"Ash": ash_spec}
+
+
 def translate_module(spec: ModSpec):
     tr = Tr(spec)
     text = tr.translate_all()
